@@ -277,20 +277,36 @@ func r20_2(r *Report, p *Program) {
 		if stop == nil || start == nil {
 			continue
 		}
+		// the stop channel is the receiver field Stop closes, the done channel the one it then waits on (whatever they are called)
+		stopName, doneName := "p0.stopCh", "p0.doneCh"
+		for _, b := range engine.BlocksInl(stop) {
+			for _, in := range b.Instrs {
+				switch x := in.(type) {
+				case *ssa.Call:
+					if engine.CallKey(x.Common()) == "builtin.close" && strings.HasPrefix(E(x.Common().Args[0]), "p0.") {
+						stopName = E(x.Common().Args[0])
+					}
+				case *ssa.UnOp:
+					if x.Op == token.ARROW && strings.HasPrefix(E(x.X), "p0.") {
+						doneName = E(x.X)
+					}
+				}
+			}
+		}
 		var closeStop, shut, wait ssa.Instruction
 		for _, b := range engine.BlocksInl(stop) {
 			for _, in := range b.Instrs {
 				switch x := in.(type) {
 				case *ssa.Call:
 					k := engine.CallKey(x.Common())
-					if k == "builtin.close" && E(x.Common().Args[0]) == "p0.stopCh" {
+					if k == "builtin.close" && E(x.Common().Args[0]) == stopName {
 						closeStop = in
 					}
 					if strings.HasSuffix(k, ".ShutDown") && strings.HasSuffix(E(x.Common().Value), "p0.queue") {
 						shut = in
 					}
 				case *ssa.UnOp:
-					if x.Op == token.ARROW && E(x.X) == "p0.doneCh" {
+					if x.Op == token.ARROW && E(x.X) == doneName {
 						wait = in
 					}
 				}
@@ -341,7 +357,7 @@ func r20_2(r *Report, p *Program) {
 		for _, cl := range engine.Closures(start) {
 			for _, b := range engine.BlocksInl(cl) {
 				for _, in := range b.Instrs {
-					if d, ok := in.(*ssa.Defer); ok && engine.CallKey(d.Common()) == "builtin.close" && strings.HasSuffix(E(d.Common().Args[0]), ".doneCh") {
+					if d, ok := in.(*ssa.Defer); ok && engine.CallKey(d.Common()) == "builtin.close" && strings.HasSuffix(E(d.Common().Args[0]), strings.TrimPrefix(doneName, "p0")) {
 						g = cl
 					}
 				}
@@ -371,7 +387,7 @@ func r20_2(r *Report, p *Program) {
 						okS, whyS = false, "worker goroutine does not defer wg.Done()"
 					}
 					u := callsTo(cl, false, "wait.Until")[0]
-					if !strings.HasSuffix(E(u.Common().Args[2]), ".stopCh") {
+					if !strings.HasSuffix(E(u.Common().Args[2]), strings.TrimPrefix(stopName, "p0")) {
 						okS, whyS = false, "worker loop is not bound to stopCh"
 					}
 				}
